@@ -2,7 +2,7 @@ SPECIFICATION Spec
 CONSTANTS
   Circuits = {"small", "mid", "large", "edge"}
   BelowSwitch = {"small"}
-  AllPools = {1, 2, 3, 4, 5, 6, 7, 8, 9, 10, 11, 12, 13, 14, 15, 16, 17, 32}
+  AllPools = {1, 2, 3, 4, 5, 6, 7, 8, 9, 10, 11, 12, 13, 14, 15, 16, 17, 32, 33, 64, 65}
   SmallPools = {1, 2, 3, 4, 5, 8, 17, 32}
   FreshPools = {0, 1, 3, 4, 5, 17, 32}
   FreshProcs = 3
